@@ -637,8 +637,8 @@ def _put_one_ImportFrom_level(
         start_ln = ln
         start_col = col
 
-        while dot := next_find(lines, ln, col, end_ln, end_col, '.'):
-            ln, col = dot
+        while (frag := next_frag(lines, ln, col, end_ln, end_col)) and frag.src.startswith('.'):  # only the leading dots, not the ones inside a dotted module name
+            ln, col, _ = frag
             col += 1
             child -= 1
 
